@@ -2,6 +2,7 @@
 CONSTANTS
     NK = 3
     NKnown = 2
+    Secp = {2}
     Passes = {"e", "w", "u", "v"}
     MaxArm = 2
     Depth = 16
